@@ -14,7 +14,7 @@ def run(ctx):
         rule="seeded random programs of ZADD (all options, both letter cases) / ZREM / ZRANGE (negative and out-of-range "
              "windows, REV, WITHSCORES, malformed options) / ZRANK over 1-3 keys with many tied scores, plus shaped programs "
              "(ascending / descending / zigzag / random insertion orders of 3-40 scores, then deletions of roots and inner "
-             "nodes and score updates) and TTL programs; the keyspace dump after every step carries the AVL tree node for "
+             "nodes and score updates), programs naming one member several times in one ZADD, deletion-pattern programs on trees of 8-64 scores (insertion order, reverse, min/max first, middle outwards, every second, random; all ordered pairs of deletions on one small tree) and TTL programs; the keyspace dump after every step carries the AVL tree node for "
              "node with stored heights, len and dict",
         extra_tb=["float64 scores are modelled as exact decimals: the generated domain is restricted to <= 15 significant "
                   "digits, no negative zero, INCR only on multiples of 1/8 (where float64 addition is exact)"])
